@@ -39,10 +39,16 @@ def born (p : Plan) (t : Nat) : Nat :=
   | some (_, k) => k + 1
   | none => 0
 
-/-- last time index at which `t` is needed: ∞ (= ops.length + 1) for graph outputs and variables -/
+/-- last time index at which `t` is needed: ∞ (= ops.length + 1) for graph outputs and variables; otherwise the last
+    operator that reads OR WRITES it. Every result of an operator of the output graph is written by the runtime
+    while that operator runs, whether anybody reads it or not (the unread second result of a two-output CPU
+    operator, TOPK_V2 of which only the indices are used, …): it occupies its bytes at that operator. -/
 def dies (p : Plan) (t : Nat) : Nat :=
   if p.outputs.contains t ∨ ((p.tensors[t]?.map (·.isVariable)).getD false) then p.ops.length + 1 else
-  (p.ops.zipIdx.foldl (fun acc (o, k) => if o.inputs.contains t then max acc (k + 1) else acc) (born p t))
+  (p.ops.zipIdx.foldl (fun acc (o, k) => if o.inputs.contains t || o.outputs.contains t then max acc (k + 1) else acc) (born p t))
+
+/-- `t` holds a value that must survive time `τ` (time `k + 1` is "while operator `k` runs") -/
+def liveAt (p : Plan) (t τ : Nat) : Prop := born p t ≤ τ ∧ τ ≤ dies p t
 
 /-- memory-only operators whose input and output are the same bytes by definition:
     RESHAPE 22, SQUEEZE 43, EXPAND_DIMS 70 -/
